@@ -81,6 +81,9 @@ def run(tier, rep):
 
     for pl in stream_corpus.framelike_payloads(rnd) + stream_corpus.special_int_payloads(rnd):
         cases.append(("special", "special", pl))
+    # (payloads that look like text: whether one with a defined number decodes is for the spec to say)
+    for pl in stream_corpus.texty_payloads(corp.bundle, rnd, 24):
+        cases.append(("texty", "texty", pl))
     # maximal messages of defined types
     for ident in (["1004", "1077", "1127", "4076_201", "1029", "1033"] if quick else sorted(corp.bundle["defs"])[::3]):
         pl, _ = gen_messages.build(ident, corp.bundle, rnd, values="random", count="max", mask="dense")
@@ -155,7 +158,7 @@ def run(tier, rep):
         rep.case(digest([body.hex(), r["via"]]), nontrivial=len(body) >= 3)
         if v[0] != "accept":
             rep.reject(v[1], {"engine": "message", "ident": meta["ident"], "via": r["via"], "len": len(body)}, de.replay_of(r, meta, v))
-        elif r["via"] == "parse" and v[1] not in ("Message", "Stub") and meta["ident"].startswith("gen:") and not meta["ident"].startswith("gen:twin"):
+        elif r["via"] == "parse" and v[1] not in ("Message", "Stub") and meta["ident"].startswith("gen:") and not meta["ident"].startswith(("gen:twin", "gen:texty")):
             # (frames of the logs whose payload the spec itself rejects - e.g. the truncated 1302
             # messages of the NTRIP log - are outside C07: it speaks of payloads that parse)
             rep.reject("ValidFrameRejected", {"engine": "message", "ident": meta["ident"]}, de.replay_of(r, meta, v))
